@@ -12,6 +12,12 @@ def run(chk):
     chk.assumptions += common.ASSUME
     common.mc(chk, properties=['PurgeFrame'])
     common.gen_tt(chk, 'rm', 'Init_Many', 'Next_Rm', 6, None, thorough_seeds=6)
+    # "exactly the matching entries" also when the trash holds entries that cannot be read (no Path, unreadable, not an
+    # info file), in any directory order: the malformed neighbours must not hide matching entries listed after them
+    groups = [g for g in stages.generate(chk, 'rm-among-malformed', 'Init_Junk', 'Next_Junk', dict(common.C, MaxObj=9, GenLevel=1))
+              if g['lab']['cmd'] == 'rm']
+    stages.transition_tests(chk, 'rm-among-malformed', groups, sample=None, seeds_per_group=2 if chk.tier == 'quick' else 8,
+                            opts_fn=lambda g, seed: {'shim': {'permute': True}})
     common.fun_laws(chk)
     common.fun_stage(chk, 'patterns', 'rm', 150 if chk.tier == 'quick' else 4000)
     chk.exhaustive = True
